@@ -376,9 +376,11 @@ fn built_case(r: &mut Rng) -> RtCase {
                 iat: canon_ts(r),
                 nbf: canon_ts(r),
                 sub: opt_s(r),
-                aud: match r.below(4) {
-                    0 => None,
-                    1 => Some(vec![]),
+                aud: match r.below(8) {
+                    0 | 1 => None,
+                    2 | 3 => Some(vec![]),
+                    // exactly ONE audience, with a space / a comma / empty: what a compact single-string form would have to keep apart
+                    4 => Some(vec![r.pick(&["billing api", "a b", " ", "a,b", "", "https://rs.example/ https://rs2.example/"]).to_string()]),
                     _ => Some((0..r.range(1, 4)).map(|_| gen::mixed(r)).collect()),
                 },
                 iss: opt_s(r),
